@@ -23,6 +23,9 @@ MCSpec == MCInit /\ [][MCNext]_mcvars
 PropView == <<vars, n, ntimeouts>>
 EmitInv == (n = MaxOps) => CSVWrite("%1$s", <<ToJson(hist)>>, IOEnv.OUT)
 Reach_TxAttributed == ~(\E d \in DOMAIN pins : d \notin DOMAIN tx /\ \E i \in DOMAIN hist : hist[i].d = d /\ hist[i].m = "elsewhere-final")
+\* an answer from another address releases a dialog that an answer from the configured address had pinned
+Reach_StrayUnpins == ~(\E d \in Dialogs : d \notin DOMAIN pins /\ Len(hist) > 2 /\ hist[Len(hist)].d = d /\ hist[Len(hist)].m \in {"elsewhere-final", "elsewhere-prov"}
+                         /\ \E i \in 1..(Len(hist) - 1) : hist[i].d = d /\ hist[i].op = "answer" /\ hist[i].m \in {"", "long"})
 Reach_LongSurvives == ~(last.origin = "pin" /\ ntimeouts > 0 /\ last.dlg \in long)
 Reach_PinnedAfterRotation == ~(last.origin = "pin" /\ idx # 0)
 =============================================================================
